@@ -80,6 +80,8 @@ def Shuffle(F,
         for i in range(N):
             if polarity_flips[i] not in (-1, 1):
                 raise ValueError(perr)
+        # signs given as 1.0 or True must not leak into the literals
+        polarity_flips = [1 if x == 1 else -1 for x in polarity_flips]
 
     # variables permutation
     if variables_permutation == 'fixed':
@@ -94,6 +96,7 @@ def Shuffle(F,
         for i in range(N):
             if i+1 != tmp[i]:
                 raise ValueError(verr)
+        variables_permutation = [int(v) for v in variables_permutation]
 
     #
     # permutation of clauses
